@@ -637,7 +637,7 @@ static void DecodeEmulOneToTwo(Word Code) {
         else if ((DestParts.Mode == eModeRegDisp) && (DestParts.Part == RegPC)) {
             LongWord NewDist = DestParts.Val - 2;
 
-            if ((NewDist & 0x8000) != (DestParts.Val & 0x8000)) {
+            if ((DestParts.Val & 0x8000) && !(NewDist & 0x8000)) {
                 WrError(ErrNum_DistTooBig);
                 return;
             }
@@ -737,7 +737,7 @@ static void DecodeEmulOneToTwoX(Word Code) {
         else if ((DestParts.Mode == eModeRegDisp) && (DestParts.Part == RegPC)) {
             LongWord NewDist = DestParts.Val - 2;
 
-            if ((NewDist & 0x8000) != (DestParts.Val & 0x8000)) {
+            if ((DestParts.Val & 0x80000) && !(NewDist & 0x80000)) {
                 WrError(ErrNum_DistTooBig);
                 return;
             }
